@@ -221,6 +221,7 @@ def main(argv=None):
     ap.add_argument('--replay')
     ap.add_argument('--only', help='run only harnesses whose name matches this regex')
     ap.add_argument('--no-evidence', action='store_true')
+    ap.add_argument('--params', help='run only shards whose params repr matches this regex')
     args = ap.parse_args(argv)
     if args.replay:
         return replay(args.replay)
@@ -232,6 +233,9 @@ def main(argv=None):
     shards = list(prop.shards(tier))
     if args.only:
         shards = [s for s in shards if re.search(args.only, s[0])]
+    if args.params:
+        shards = [s for s in shards if re.search(args.params, repr(s[1]))]
+        args.only = args.only or '.'
     rnd = random.Random(seed)
     rnd.shuffle(shards)
     budget = prop.BUDGET[tier]
